@@ -14,22 +14,50 @@ fn rejection_justified(doc: &[Node], calls: &[WCall], i: usize) -> bool {
         WCall::Tag(NItem::Leaf(_, v), WOpt::Width(w)) => !width_holds(*w, v.canonical_bytes().len() as u64),
         WCall::Tag(NItem::Raw(_, b), WOpt::Width(w)) => !width_holds(*w, b.len() as u64),
         WCall::Tag(NItem::End(id), _) | WCall::Tag(NItem::Full(id, _), _) => {
-            // a master with an explicit width whose content (minimal inner widths) does not fit
-            let mut just = false;
-            crate::refmodel::visit(doc, &mut |n, _| {
-                if n.id == *id {
-                    if let (Kind::Master(ch), SizeEnc::Width(w)) = (&n.kind, n.size) {
-                        let (b, _) = ref_encode(ch);
-                        if !width_holds(w, b.len() as u64) {
-                            just = true;
+            // a master with an explicit width whose content does not fit. The content length is what the writer
+            // itself produces for the children (its default size widths are its own business): the children are
+            // written inside a scaffold of unknown-size masters and the bytes handed over are counted
+            fn rec(nodes: &[Node], id: u64, chain: &mut Vec<u64>, just: &mut bool) {
+                for n in nodes {
+                    if let Kind::Master(ch) = &n.kind {
+                        if n.id == id {
+                            if let SizeEnc::Width(w) = n.size {
+                                let len = match written_content_len(chain, n.id, ch) {
+                                    Some(l) => l,
+                                    None => ref_encode(ch).0.len() as u64,
+                                };
+                                if !width_holds(w, len) {
+                                    *just = true;
+                                }
+                            }
                         }
+                        chain.push(n.id);
+                        rec(ch, id, chain, just);
+                        chain.pop();
                     }
                 }
-            }, 0);
+            }
+            let mut just = false;
+            rec(doc, *id, &mut Vec::new(), &mut just);
             just || matches!(&calls[i], WCall::Tag(NItem::Full(..), WOpt::Unknown | WOpt::UnknownDeprecated))
         }
         _ => false,
     }
+}
+
+/// Bytes the real writer hands over for `children` when they are written below `chain` + `id`, all of those opened
+/// with unknown size (nothing is held back, no size field of theirs depends on the content).
+fn written_content_len(chain: &[u64], id: u64, children: &[Node]) -> Option<u64> {
+    let mut calls: Vec<WCall> = chain.iter().chain(std::iter::once(&id)).map(|m| WCall::Tag(NItem::Start(*m), WOpt::Unknown)).collect();
+    let scaffold = calls.len();
+    calls.extend(calls_for(children, &[], false));
+    let run = run_writer::<V>(&calls, Dest::default());
+    if run.results.iter().any(|r| r.is_err()) {
+        return None;
+    }
+    let head = run_writer::<V>(&calls[..scaffold], Dest::default());
+    // into_inner() appends nothing for unknown-size masters
+    Some((run.out.len() - head.out.len()) as u64)
 }
 
 fn first_rejection(results: &[Result<(), WErr>]) -> Option<(usize, &WErr)> {
@@ -218,7 +246,7 @@ pub fn run(ctx: &mut Ctx) {
     };
     ctx.meta("rule", "cases: (tree, per-element options); trees = forests over V up to the node bound + deep spines + Root[leaf] for every payload class of every data type x every explicit size width 1..8 + size-boundary documents (payload / master content of 124..128 and 16379..16384 bytes); options = every known/unknown choice of masters x deviations among size width 1..8 per master/leaf and payload class. For each case the real writer is driven with (a) Start/children/End, (b) EVERY way of collapsing masters into Full items, (c) the deprecated unknown-size call, (c2) Ends carrying the option of their Start, (c3) the trailing Ends left to into_inner(), (c4) one call that the writer rejects (End of a master that is not open, a 127-byte string with a 1-byte size field) put in at every position, (d) destinations that accept only a few bytes per write (all compositions for outputs <= 10 bytes, else <= 3 deviations, incl. Interrupted). Oracle: (b),(c),(c2),(c3),(c4),(d) byte-identical to (a); (a) walked with RefCodec guided by the tree: ids, payloads, order, size values == actual content lengths, requested width exact, unknown => all-ones, never the reserved all-ones for a known size; a width that cannot hold the size must be rejected with TagSizeError. Non-trivial: presentations whose call count differs from (a).");
     ctx.meta("bounds", &format!("forests <= {} elements, <= {} option deviations, all Full antichains", p.max_nodes, p.devs));
-    ctx.meta("assumptions", "default (unrequested) size widths are not constrained beyond well-formedness || whether an explicit master width can hold its content is judged with minimal inner widths");
+    ctx.meta("assumptions", "default (unrequested) size widths are not constrained beyond well-formedness || whether an explicit master width can hold its content is judged with the content length the writer itself produces for the children (written inside unknown-size scaffolding)");
     for c in ["closed_by_into_inner", "ends_carrying_options", "full_presentations", "deprecated_unknown_presentations", "short_write_schedules", "explicit_width_too_small_rejected", "size_boundary_docs", "presentations_with_a_rejected_call", "payload_class_x_width_docs"] {
         ctx.expect_nonzero(c);
     }
